@@ -28,10 +28,12 @@ ASSUMPTIONS = [
     'holds_C06 makes no claim for sources the reference grammar leaves undefined (Spec/LuaLex.v header), e.g. unknown '
     'escapes, raw line breaks inside quoted strings, lone carriage returns',
 ]
-PARTIAL = ('holds_C06_relex (the written text is itself in the dialect and re-lexes to the same views) is evaluated on the '
-           'implementation but not proved for the model; everything else of the statement is proved (C06_echo for one '
-           'chunk, C06_echo_chunks / C06_echo_chunking for per-line chunks). Sources the reference grammar leaves '
-           'undefined are outside the claim of C06_echo (C06_cover and C06_code_is_extent hold for every lexable input).')
+PARTIAL = ('holds_C06_relex (the written text is itself in the dialect and re-lexes, under the REFERENCE grammar, to the same '
+           'views) is evaluated on the implementation but not proved in this cone; its model-side counterpart is proved for '
+           'every input (C06_relex_stable / C06_echo_idempotent: the written text is a fixed point of lex + echo), and the '
+           'reference-side statement follows from C06_echo + C06_echo_crlf_only by the `require` worker\'s '
+           'Proofs/SpecLexChunk.v (holds_C06_sig_views). Sources the reference grammar leaves undefined are outside the claim '
+           'of C06_echo (C06_cover, C06_code_is_extent, C06_relex_stable, C06_echo_chunks_nonempty hold for every lexable input).')
 CLAIM = dict(
     text=("Theorems (Coq, closed under the global context) about an executable model of the lexer, Token.code / "
           "TokString.code (over the escape tables regenerated from lexer.py on every run) and LuaEchoWriter.to_lines: "
@@ -40,7 +42,9 @@ CLAIM = dict(
           "implementation's output (byte-for-byte outside quoted strings; inside, the same quote and a spelling the "
           "reference decoder reads back as the same bytes); C06_cover and C06_code_is_extent for any chunking and any "
           "lexable input; C06_echo_is_codes; C06_string_reencode (decode(TokString.code(v)) = v for every byte string, "
-          "both quotes); C06_string_decode_agrees (the in-string loop = the reference decoder, every escape form). "
+          "both quotes); C06_string_decode_agrees (the in-string loop = the reference decoder, every escape form); "
+          "C06_relex_stable / C06_echo_idempotent(_lf) (lexing the written text again, also with a final line feed "
+          "supplied, writes the very same text - every input); C06_echo_chunks_nonempty. "
           "Tie: extracted model vs implementation line by line in both chunkings + extracted monitor on the "
           "implementation's output. Three echo defects found by this check were fixed (findings/known_C06.json)."),
     note=("Trusted: Coq kernel+VM, table dump gen/kernels_lexer.py, hand-written scanners for the pinned regex sources "
